@@ -55,6 +55,18 @@ type C13Scenario struct {
 
 // doCall performs c on m and returns the text it produced ("" + false if the
 // call does not apply to this module).
+// doCallP is doCall for states in which a print may legitimately panic (an
+// unfinished module): the panic is the outcome of the call.
+func doCallP(m *ir.Module, c Call, recoverPanics bool) (s string, ok bool) {
+	if !recoverPanics {
+		return doCall(m, c)
+	}
+	if pan, msg := protect(func() { s, ok = doCall(m, c) }); pan {
+		return "PANIC: " + normDigits(clip(msg, 200)), true
+	}
+	return s, ok
+}
+
 func doCall(m *ir.Module, c Call) (string, bool) {
 	fn := func() *ir.Func {
 		if len(m.Funcs) == 0 {
@@ -232,6 +244,17 @@ func (w *plainWriter) Write(p []byte) (int, error) { return w.b.Write(p) }
 
 func applyStart(m *ir.Module, start string) {
 	switch start {
+	case "unfinished":
+		// Under construction: the last block of the first function body has no
+		// terminator yet. Every print of it (or of what contains it) fails the same
+		// way, for a lone caller and for concurrent callers alike, and leaves
+		// nothing behind.
+		for _, f := range m.Funcs {
+			if n := len(f.Blocks); n > 0 {
+				f.Blocks[n-1].Term = nil
+				break
+			}
+		}
 	case "printed":
 		_ = m.String()
 	case "func-printed":
@@ -419,7 +442,7 @@ func c13Run(sc *C13Scenario) *c13Outcome {
 		got[i] = make([]string, len(calls))
 		fns[i] = func() {
 			for j, c := range calls {
-				s, _ := doCall(m, c)
+				s, _ := doCallP(m, c, sc.Start == "unfinished")
 				got[i][j] = s
 			}
 			if gate != nil && !stalls(calls) {
@@ -471,7 +494,7 @@ func c13Run(sc *C13Scenario) *c13Outcome {
 						var ref []string
 						var app []bool
 						for _, c := range t {
-							s, ok := doCall(twin, c)
+							s, ok := doCallP(twin, c, sc.Start == "unfinished")
 							ref = append(ref, s)
 							app = append(app, ok)
 						}
@@ -538,7 +561,7 @@ func c13Run(sc *C13Scenario) *c13Outcome {
 	// Module prints are also compared with the text a sequential print gives in
 	// ANOTHER process (the reference worker): process-wide state corrupted by the
 	// concurrent printers taints the in-process twin as well.
-	if want, ok := c13CrossRef(sc.Module, sc.Start); ok {
+	if want, ok := c13CrossRef(sc.Module, sc.Start); ok && sc.Start != "unfinished" {
 		for i := range sc.Tasks {
 			for j, c := range sc.Tasks[i] {
 				k := c.K % len(callNames)
@@ -654,6 +677,9 @@ func c13GenScenario(r *rng, srcs []*moduleSource) *C13Scenario {
 	switch x := r.intn(12); {
 	case x < 5:
 		sc.Start = "fresh"
+		if r.chance(1, 10) {
+			sc.Start = "unfinished"
+		}
 	case x < 8:
 		sc.Start = "printed"
 	case x < 11:
